@@ -57,9 +57,19 @@ Print Assumptions block_input_rows_match.
 EOF
 OUT=$(cd "$TMP" && timeout 300 coqc -Q "$COQ" HV $W RustTablesCheck.v 2>&1)
 rc=$?
+# the property-level statements proposed for coq/props/C01.v
+cp "$HERE/C01_rust_tables.props.v" "$TMP/C01RustTablesProps.v"
+OUT2=$(cd "$TMP" && timeout 300 coqc -Q "$COQ" HV $W C01RustTablesProps.v 2>&1)
+rc2=$?
 rm -rf "$TMP"
 echo "$OUT"
 [ $rc -eq 0 ] || { echo "FAIL: Print Assumptions"; exit 1; }
 n=$(echo "$OUT" | grep -c "Closed under the global context")
 if [ "$n" -ne 30 ]; then echo "FAIL: $n of 30 theorems closed"; exit 1; fi
+echo "$OUT2"
+[ $rc2 -eq 0 ] || { echo "FAIL: C01_rust_tables.props.v"; exit 1; }
+m=$(echo "$OUT2" | grep -c "Closed under the global context")
+k=$(grep -c "^Theorem C01_validity_tables_match_rust" "$HERE/C01_rust_tables.props.v")
+if [ "$m" -ne "$k" ]; then echo "FAIL: $m of $k property-level theorems closed"; exit 1; fi
+echo "OK rust-tables-props: $k property-level theorems closed under the global context"
 echo "OK rust-tables: scanner accepted $REPO, 30 theorems closed under the global context"
